@@ -125,14 +125,18 @@ func verifC04PickPage(tag string, n int) uint32 {
 }
 
 func verifC04Run(stubLock bool) {
+	tier := rt.Tier()
+	if stubLock {
+		tier = 0 // the lock-page variant keeps the quick bounds in both tiers
+	}
 	ns := 4
-	if rt.Tier() > 0 {
+	if tier > 0 {
 		ns = len(verifC04Shapes)
 	}
 	n := verifC04Shapes[rt.Choose("slots", ns)]
 	big := n >= 255 // block-boundary shapes: a reduced set of combinations (all four operations only in the thorough tier)
-	if stubLock && rt.Tier() == 0 && n != 3 && n != 257 {
-		rt.Assume(false)
+	if stubLock && n != 3 && n != 257 {
+		rt.Assume(false) // lock-page variant: shapes 3 and 257
 	}
 	lock := ltx.LockPgno(4096)
 	if stubLock {
@@ -147,14 +151,14 @@ func verifC04Run(stubLock bool) {
 	missing := -1
 	if n > 0 && !big && rt.Choose("missing", 2) == 1 {
 		missing = n - 1
-		if rt.Tier() > 0 && n <= 3 && rt.Choose("missing.first", 2) == 1 {
+		if tier > 0 && n <= 3 && rt.Choose("missing.first", 2) == 1 {
 			missing = 0
 		}
 	}
 	db := verifC04State(n, lock, missing)
 
 	maxEnt := 1
-	if rt.Tier() > 0 && n == 3 {
+	if tier > 0 && n == 3 {
 		maxEnt = 2 // two committed WAL entries: on the three-slot shape only
 	}
 	// committed WAL entries (stacks of 1..2)
@@ -167,12 +171,12 @@ func verifC04Run(stubLock bool) {
 		db.wal.chksums[p] = st
 	}
 	op := rt.Choose("op", 4)
-	if big && rt.Tier() == 0 && op != 0 && op != 2 {
+	if big && tier == 0 && op != 0 && op != 2 {
 		rt.Assume(false)
 	}
 	// entries of the transaction being committed (only for the plain checksum op in the quick tier)
 	var newWAL map[uint32]ltx.Checksum
-	if op == 0 || (rt.Tier() > 0 && !big) {
+	if op == 0 || (tier > 0 && !big) {
 		if k := rt.Choose("new.entries", 2); k > 0 { // at most one entry of the transaction being committed
 			newWAL = map[uint32]ltx.Checksum{}
 			for i := 0; i < k; i++ {
@@ -182,11 +186,13 @@ func verifC04Run(stubLock bool) {
 		}
 	}
 	// page count: around the slot count
-	npn := 4
-	if big {
-		npn = 2
+	// page count: around the slot count (n-2 reaches the last page of the previous block for n = 257)
+	cands := []int{n, n - 1, n - 2, n + 1, 0}
+	npn := len(cands)
+	if big && tier == 0 {
+		npn = 3
 	}
-	pageN := uint32([]int{n, n - 1, n + 1, 0}[rt.Choose("pageN", npn)])
+	pageN := uint32(cands[rt.Choose("pageN", npn)])
 	if int32(pageN) < 0 {
 		rt.Assume(false)
 	}
